@@ -9,7 +9,7 @@ assert s.count(old) >= 1, 'pattern not found'
 open(p, 'w', encoding='utf-8').write(s.replace(old, new, 1))
 try:
     for i in ids.split(','):
-        r = subprocess.run(['/venv/bin/python', '-m', 'vf', 'check', i, '--tier', tier], cwd='/verif', capture_output=True, text=True)
+        r = subprocess.run(['/venv/bin/python', '-m', 'vf', 'check', i, '--tier', tier], cwd='/verif', capture_output=True, text=True, timeout=900)
         lines = [l for l in r.stdout.splitlines() if l.startswith(('VIOLATION', 'KNOWN', 'HARNESS', '  key', '  what', i))]
         print(f'--- {i} rc={r.returncode}'); print('\n'.join(l[:300] for l in lines[:12])); print(r.stderr[-500:])
 finally:
